@@ -213,6 +213,8 @@ def sessions_task(name, sessions):
         r = sh.child('repl', hx(data), 10)
         st.inc('sessions')
         st.inc('transitions', len(lines))
+        if len(st.samples) < 3 and sum(len(l) for l in lines) < 300:
+            st.sample({'program': name, 'lines': lines, 'status': r.status})
         st.add('status', r.status)
         res = check_session(lines, r.status, r.out.decode('utf-8', 'replace'), r.err.decode('utf-8', 'replace'))
         if res is not None:
